@@ -12,9 +12,10 @@ import Cascette.Proofs.ManifestBuilder
 import Cascette.Proofs.ManifestQuery
 import Cascette.Proofs.ManifestDownload
 import Cascette.Proofs.ManifestExt
+import Cascette.Proofs.ManifestMut
 namespace Cascette.Props.C19
 open Cascette Cascette.Model.Manifest Cascette.Proofs.Manifest
-open Cascette.Model.Serial Cascette.Model.ManifestExt
+open Cascette.Model.Serial Cascette.Model.ManifestExt Cascette.Model.ManifestMut
 
 /-! ### the on-disk bit -/
 
@@ -463,6 +464,106 @@ theorem utf8_samples :
     validUtf8 [0xC0, 0x80] = false ∧ validUtf8 [0xED, 0xA0, 0x80] = false ∧
     validUtf8 [0xF4, 0x90, 0x80, 0x80] = false ∧ validUtf8 [0xE2, 0x82] = false ∧
     validUtf8 [0x80] = false := by decide
+
+/-! ### builder as mutator: `from_manifest` (Model/ManifestMut) -/
+
+/-- `from_manifest_identity_download`. For EVERY well-formed download manifest — version 1, 2 or
+3, with or without checksums, every flag size 0–4, every base priority −128..127 (V3), any
+entries and tags — `DownloadManifestBuilder::from_manifest` followed by `build` returns exactly
+that manifest, and its serialisation parses back to it. Hence every selection of the rebuilt,
+re-parsed value (by tag, by tags, by priority category, by priority range, essential size,
+effective priorities) IS the selection of the original. -/
+theorem from_manifest_identity_download (m : DManifest) (h : DManifestWf m) (trailing : Bytes) :
+    (dFromManifest m).build = .ok m ∧ parseDownload (serDownload m ++ trailing) = some m :=
+  ⟨dFromManifest_build m h, parseDownload_ser m h trailing⟩
+
+/-- `from_manifest_keeps_header_download`. Load a well-formed manifest, run ANY program of editing
+calls (add tag / add file / associate / dissociate / remove file / remove tag / set_file_checksum /
+set_file_flags, accepted or rejected — everything but the three configuration setters), build: the
+rebuilt manifest carries the source's version, checksum switch, flag size and base priority, and
+so gives every entry the effective priority the source gives it. -/
+theorem from_manifest_keeps_header_download (m m' : DManifest) (h : DManifestWf m) (ops : List DOp)
+    (hops : ∀ op ∈ ops, DOp.isConfig op = false)
+    (hb : (drun (dFromManifest m) ops).build = .ok m') :
+    m'.version = m.version ∧ m'.hasCks = m.hasCks ∧ m'.flagSize = m.flagSize ∧
+    m'.basePrio = m.basePrio ∧ ∀ e, effPrio m' e = effPrio m e :=
+  dFromManifest_keeps_header m m' h ops hops hb
+
+/-- `from_manifest_priority_selection`. …therefore the three priority selections of the rebuilt
+manifest are selections over ITS entries by the SOURCE's effective priority (saturating
+`priority - base` of the source header for V3, the raw priority for V1/V2). -/
+theorem from_manifest_priority_selection (m m' : DManifest) (h : DManifestWf m) (ops : List DOp)
+    (hops : ∀ op ∈ ops, DOp.isConfig op = false)
+    (hb : (drun (dFromManifest m) ops).build = .ok m') :
+    (∀ cat, m'.byPriority cat = selectEnt (fun e => prioCat (effPrio m e) == cat) 0 m'.entries) ∧
+    (∀ lo hi, m'.byPriorityRange lo hi =
+      selectEnt (fun e => decide (lo ≤ effPrio m e) && decide (effPrio m e ≤ hi)) 0 m'.entries) ∧
+    m'.essentialSize = ((m'.entries.filter fun e => decide (effPrio m e ≤ 0)).map (·.size)).sum ∧
+    effList m' = m'.entries.map (effPrio m) := by
+  have heff : effPrio m' = effPrio m :=
+    funext (from_manifest_keeps_header_download m m' h ops hops hb).2.2.2.2
+  unfold DManifest.byPriority DManifest.byPriorityRange DManifest.essentialSize effList
+  rw [heff]
+  exact ⟨fun _ => rfl, fun _ _ => rfl, rfl, rfl⟩
+
+/-- `from_manifest_program_refines_download`. A builder loaded from a manifest with exact masks
+and distinct tag names satisfies the program invariant, so `download_builder_refines_sets` holds
+for programs that START from a loaded manifest: the state after the program is the abstract
+program run from the manifest's own tag -> membership-vector state. -/
+theorem from_manifest_program_refines_download (m : DManifest)
+    (hm : ∀ t ∈ m.tags, MaskOk m.entries.length t.mask) (hnd : (m.tags.map (·.name)).Nodup)
+    (ops : List DOp) (s : Spec.TagSets.SState DF)
+    (h : Spec.TagSets.run (absDM m) (specProg ops) = some s) :
+    DInv (drun (dFromManifest m) ops) ∧ absD (drun (dFromManifest m) ops) = s := by
+  obtain ⟨hI, ha⟩ := dinv_fromManifest m hm hnd
+  exact drun_refines ops _ hI s (by rw [ha]; exact h)
+
+/-- `from_manifest_identity_install`. For every well-formed install manifest, V1 and V2 (every
+content-key-size / entry_count_v2 / unknown byte, every per-entry file-type byte),
+`InstallManifestBuilder::from_manifest` followed by `build` returns exactly that manifest, and its
+serialisation parses back to it. -/
+theorem from_manifest_identity_install (m : IManifest) (h : IManifestWf m) (trailing : Bytes) :
+    (IMut.fromManifest m).build = .ok m ∧ parseInstall (serInstall m ++ trailing) = some m :=
+  ⟨iFromManifest_build m h, parseInstall_ser m h trailing⟩
+
+/-- `from_manifest_keeps_header_install`. Load a well-formed install manifest, run ANY program of
+the six editing calls, build: version and V2 extension fields are the source's, the tags are the
+builder's, and the entries are the builder's — under a V2 source every entry carries a file-type
+byte (its own if it had one, 0 for an entry added by the program), under a V1 source none is
+touched. -/
+theorem from_manifest_keeps_header_install (m m' : IManifest) (h : IManifestWf m)
+    (ops : List (Spec.TagSets.Op IEntry))
+    (hb : IMut.build ⟨irun (IMut.fromManifest m).b ops, (IMut.fromManifest m).src⟩ = .ok m') :
+    m'.version = m.version ∧ m'.v2 = m.v2 ∧ m'.tags = (irun (IMut.fromManifest m).b ops).tags ∧
+    m'.entries = (if m.version = 2 then (irun (IMut.fromManifest m).b ops).entries.map fillType
+                  else (irun (IMut.fromManifest m).b ops).entries) :=
+  ibuild_src _ m m' h hb
+
+/-- `from_manifest_program_refines_install`: `builder_refines_sets` for programs that start from
+a loaded install manifest. -/
+theorem from_manifest_program_refines_install (m : IManifest)
+    (hm : ∀ t ∈ m.tags, MaskOk m.entries.length t.mask) (hnd : (m.tags.map (·.name)).Nodup)
+    (ops : List (Spec.TagSets.Op IEntry)) (s : Spec.TagSets.SState IEntry)
+    (h : Spec.TagSets.run ⟨m.entries, m.tags.map (absTag m.entries.length)⟩ ops = some s) :
+    IInv (irun (IMut.fromManifest m).b ops) ∧ absI (irun (IMut.fromManifest m).b ops) = s := by
+  obtain ⟨hI, ha⟩ := iinv_fromManifest m hm hnd
+  exact irun_refines ops _ hI s (by rw [ha]; exact h)
+
+/-- kernel-checked sample (TEST) of the family the run drives: a V3 manifest with base priority
+−10 and priorities −128, −12, −3, −1, 0, 1, 3, 6, 127 (sizes 1000 + i) is loaded, a file of
+priority 2 is added and tagged, the builder is rebuilt, serialised and parsed: base priority
+still −10, essential size 2001 (entries 0 and 1), and the new file is in the tag. -/
+theorem from_manifest_v3_sample :
+    let es : List DEntry := [(-128 : Int), -12, -3, -1, 0, 1, 3, 6, 127].mapIdx fun i p =>
+      ⟨List.replicate 16 (BitVec.ofNat 8 i), 1000 + i, p, none, none⟩
+    let m : DManifest := ⟨3, false, 0, -10, es, [⟨[0x57], 1, [0x80, 0x00]⟩]⟩
+    (match (drun (dFromManifest m) [.addFile (List.replicate 16 0xEE) 5000 2, .assoc 9 [0x57]]).build with
+     | .ok m' =>
+       (match parseDownload (serDownload m') with
+        | some p => p.basePrio == -10 && p.essentialSize == 2001 &&
+                    (p.byTag [0x57]).map (·.1) == [0, 9] && p == m'
+        | none => false)
+     | .error _ => false) = true := by decide +kernel
 
 /-! ### non-vacuity -/
 
